@@ -71,21 +71,29 @@ func paramDigest(info *linter.CheckerInfo, over map[string]any) string {
 
 // refDiags returns Ref(checker, params, goVersion, pkg, file).
 func (w *Worker) refDiags(checker string, params map[string]any, goVersion, pkg string, file int) *RefEntry {
+	return w.refDiagsPerm(checker, params, goVersion, pkg, file, 0)
+}
+
+// refDiagsPerm is refDiags for a file with permuted declaration order.
+func (w *Worker) refDiagsPerm(checker string, params map[string]any, goVersion, pkg string, file int, declSeed uint64) *RefEntry {
 	info := w.infoBy[checker]
 	if info == nil {
 		return &RefEntry{Err: "unknown checker"}
 	}
 	key := checker + "|" + paramDigest(info, params) + "|" + goVersion + "|" + pkg + "|" + fmt.Sprint(file)
+	if declSeed != 0 {
+		key += fmt.Sprintf("|perm%d", declSeed)
+	}
 	if e, ok := w.refTable.Entries[key]; ok {
 		return e
 	}
-	e := w.computeRef(info, params, goVersion, pkg, file)
+	e := w.computeRef(info, params, goVersion, pkg, file, declSeed)
 	w.refTable.Entries[key] = e
 	w.refTable.computed++
 	return e
 }
 
-func (w *Worker) computeRef(info *linter.CheckerInfo, params map[string]any, goVersion, pkg string, file int) (e *RefEntry) {
+func (w *Worker) computeRef(info *linter.CheckerInfo, params map[string]any, goVersion, pkg string, file int, declSeed uint64) (e *RefEntry) {
 	e = &RefEntry{}
 	ref := w.refCorpus()
 	cp := ref.Pkgs[pkg]
@@ -121,7 +129,7 @@ func (w *Worker) computeRef(info *linter.CheckerInfo, params map[string]any, goV
 		return
 	}
 	ctx.SetPackageInfo(cp.Pkg.TypesInfo, cp.Pkg.Types)
-	f := cp.Files[file]
+	f := cp.PermutedFile(file, declSeed)
 	ctx.SetFileInfo(cp.FileNames[file], f)
 	for _, wn := range c.Check(f) {
 		e.Diags = append(e.Diags, diagFromWarning(ref.Fset, pkg, info.Name, wn))
